@@ -1551,6 +1551,10 @@ PATH_TEXT = st.one_of(
     st.text("abc/._- 01äö雪λ\"\\\n\t{}[]*", max_size=12),
     st.text(max_size=10))
 ATTR_TEXT = st.one_of(st.text("abAB01-_ ", max_size=6), st.text(max_size=6))
+# the replay format of vp.runner tags datetimes etc. as {"__dt__": ...}; a
+# generated one-key dict with such a key would be read back as that type
+ATTR_KEY = ATTR_TEXT.filter(
+    lambda k: not (k.startswith("__") and k.endswith("__")))
 
 
 def entry(i):
@@ -1558,7 +1562,7 @@ def entry(i):
         "path": PATH_TEXT.map(lambda s, i=i: "/d%d/%s" % (i, s)),
         "t": st.tuples(times(), times()),
         "attr": st.one_of(st.just({}), st.dictionaries(
-            ATTR_TEXT, ATTR_TEXT, max_size=3)),
+            ATTR_KEY, ATTR_TEXT, max_size=3)),
     }).map(lambda d: {"path": d["path"], "t0": min(d["t"]), "t1": max(d["t"]),
                       "attr": d["attr"]})
 
@@ -1592,8 +1596,9 @@ JSON_SCALARS = st.one_of(st.none(), st.booleans(), st.integers(-5, 5),
                                    width=32), st.text(max_size=5))
 JSON_VALUES = st.recursive(
     JSON_SCALARS, lambda ch: st.one_of(
-        st.lists(ch, max_size=3), st.dictionaries(st.text(max_size=3), ch,
-                                                  max_size=3)), max_leaves=6)
+        st.lists(ch, max_size=3), st.dictionaries(
+            st.text(max_size=5).filter(lambda k: not k.startswith("__")), ch,
+            max_size=3)), max_leaves=6)
 GOOD = "2018-01-01T00:00:00.000000"
 BAD_TIMES = [
     "", "x", "2018-01-01", "2018-01-01 00:00:00.000000",
